@@ -110,6 +110,8 @@ type Interp struct {
 	// HostSingletons holds host-provided singleton values.
 	// ArgsRTL evaluates call arguments right to left (models a documented deviation of the VM).
 	ArgsRTL        bool
+	// SpawnInline runs `spawn f(..)` as an immediate call (see the Spawn case).
+	SpawnInline    bool
 	HostSingletons map[string]Val
 	singles        map[string]*cell
 	// Modules: other modules by name for imports (function lookup by module)
@@ -766,7 +768,23 @@ func (in *Interp) eval1(x Expr, e *env) (Val, *ctl) {
 	case *Call:
 		return in.callExpr(n, e)
 	case *Spawn:
-		return nil, unspec("spawn")
+		if !in.SpawnInline {
+			return nil, unspec("spawn")
+		}
+		// only valid for programs whose spawned threads are independent of the spawning code:
+		// the thread body is run at the spawn point
+		args, c := in.evalArgs(n.Args, e)
+		if c != nil {
+			return nil, c
+		}
+		f := in.globals.lookup(n.Fn)
+		if f == nil {
+			return nil, unspec("spawn of unknown function")
+		}
+		if _, c := in.call(f.v.(*FnV), args, n); c != nil {
+			return nil, c
+		}
+		return NullV{}, nil
 	}
 	return nil, unspec("expr %T", x)
 }
